@@ -28,7 +28,8 @@ EXPLANATION = (
     "aggregate sparsity mask marks every row with a stored entry of A and every row with b != 0 (either sign); (R7) the overlap "
     "counts used to average the dual in the standard-form reversal are aligned with the list of overlapped rows."
     " (R8) psd_completion completes, for each pattern, the z block of original cone number pattern.orig_index; (R9) data updates are refused for every decomposed problem, compact or standard (C08.R1 re-run)."
-    " (R10) C17.R8 re-run (Kruskal on intersection weights); (R11) compact reversal: the s and z statements of each block copy address identical positions.")
+    " (R10) C17.R8 re-run (Kruskal on intersection weights); (R11) compact reversal: the s and z statements of each block copy address identical positions."
+    " (R12) consecutive vertex numbers follow snode_post; psd_complete gathers with the ordering and scatters with its inverse.")
 ASSUMPTIONS = ['rustc MIR construction and trait resolution are correct',
                'the sdp code is analysed by type-checking only (cargo check with empty blas-src/lapack-src); it is never linked or run']
 
@@ -576,6 +577,36 @@ def reversal_index_agreement(rep, F, tag):
     R.guard(body)
 
 
+def completion_numbering(rep, F, tag):
+    """psd_complete works in the vertex numbering of the clique tree and assumes that the numbers increase along the post-order of
+    the supernodes.  That numbering is produced by reorder_snode_consecutively, which must hand out consecutive numbers walking
+    snode_post (not the storage order of the supernodes); psd_complete must gather the dual with the pattern's ordering p and
+    scatter it back with the inverse permutation, not the other way round (both compose to the identity on an untouched matrix)."""
+    R = rep.rule('C18.R12', 'completion works in the clique-tree numbering: consecutive vertex numbers follow snode_post; gather with the ordering, scatter with its inverse')
+
+    def body():
+        g = F.one(name='reorder_snode_consecutively')
+        EL = 'index_mut(self.snode, next(into_iter(iter(self.snode_post)))@Some.0)'
+        seq = [(c.callee.name, [canon(g.sym_operand(a)) for a in c.args]) for c in g.calls if c.callee.name in ('clear', 'extend')]
+        snode_ops = [(n_, a) for n_, a in seq if 'separators' not in a[0]]
+        ok = (len(snode_ops) == 2 and all(a[0] == EL for n_, a in snode_ops)
+              and re.fullmatch(r'Range::Range\(var:k, addwithoverflow\(var:k, len\(%s\)\)\.0\)' % re.escape(EL), snode_ops[1][1][1]) is not None)
+        R.check(ok, 'post-order-numbering' + tag,
+                'reorder_snode_consecutively renumbers %s: the supernodes must receive the ranges k..k+n in the order of snode_post (the completion and the separators assume numbers '
+                'that increase along the post-order)' % [(n_, a[0][:70]) for n_, a in snode_ops], g.loc())
+        f = F.one(name='psd_complete')
+        subs = [[canon(f.sym_operand(a)) for a in c.args] for c in f.calls if c.callee.name == 'subsref']
+        W = 'zeros(tuple(ncols(arg1), ncols(arg1)))'
+        gather = [a for a in subs if a[0] == W and a[1] == 'arg1']
+        scatter = [a for a in subs if a[0] == 'arg1' and a[1] == W]
+        R.check(len(gather) == 1 and gather[0][2:] == ['arg2.ordering', 'arg2.ordering'], 'gather-with-ordering' + tag,
+                'psd_complete gathers the dual with %s, expected W = A[p, p] with p = pattern.ordering' % [a[2:] for a in gather], f.loc())
+        R.check(len(scatter) == 1 and scatter[0][2:] == ['invperm(arg2.ordering)', 'invperm(arg2.ordering)'], 'scatter-with-inverse' + tag,
+                'psd_complete writes the completion back with %s, expected A = W[ip, ip] with ip = invperm(pattern.ordering)' % [a[2:] for a in scatter], f.loc())
+
+    R.guard(body)
+
+
 def run(ctx, rep, tier):
     stage_rules(ctx, rep, 'C18.R1')
     for cfg in (CONFIGS_THOROUGH if tier == 'thorough' else CONFIGS):
@@ -589,6 +620,7 @@ def run(ctx, rep, tier):
         overlap_average(rep, F, tag)
         completion_target(rep, F, tag)
         reversal_index_agreement(rep, F, tag)
+        completion_numbering(rep, F, tag)
         # the decomposed problem is equivalent only if the merged cliques still form a clique tree (C17.R8 re-run)
         from . import c17, c04
         c17.tree_from_graph(c04._Ren(rep, 'C17.R8', 'C18.R10'), F, tag)
